@@ -7,6 +7,7 @@ import petl as etl
 from hypothesis import strategies as st
 
 from pv import gen, codec
+from pv import scale
 from pv.core import Sub, Fail, exc_fail
 from pv.probes import Failing, Boom, BOOMS, BOOM_KINDS
 
@@ -153,6 +154,17 @@ def _gen_dicts(rows, fail_at, fail_kind="plain"):
 
 
 def check(case, ctx):
+    b = scale.derive(case, odds=15, sizes=[300, 500], wide=False)
+    if b and case["n"]:
+        # at scale: hundreds of rows through more than a hundred chunk files (fromdicts: thousands of rows in the spill
+        # file); every "adv" of the history advances a block of rows; a fault, if any, moves along
+        n_ = 2500 if case["kind"] == "fromdicts" else b["rows"]
+        stride = max(1, n_ // 7)
+        fa = case["fail_at"]
+        case = dict(case, n=n_, buffersize=(2, 3)[b["rows"] % 2], unpicklable_at=None,
+                    fail_at=None if fa is None else min(n_ + 1, fa * stride),
+                    steps=[[st[0], st[1], st[2] * stride] if st[0] == "adv" and len(st) > 2 else list(st) for st in case["steps"]])
+        scale.label(ctx, b)
     kind, n, bs, cache, fail_at = case["kind"], case["n"], case["buffersize"], case["cache"], case["fail_at"]
     rows = _rows(n)
     unp = case.get("unpicklable_at")
